@@ -210,6 +210,15 @@ def _steps_arg(spec):
         return None
     if spec[0] == "N":
         return int(spec[1])
+    form = spec[2] if len(spec) > 2 else "list"
+    if form == "intlist":  # whole-number abscissae as Python ints
+        return [int(v) for v in spec[1]]
+    if form == "intarr":
+        return np.array([int(v) for v in spec[1]], dtype=np.int64)
+    if form == "inttuple":
+        return tuple(int(v) for v in spec[1])
+    if form == "arr":
+        return np.array(spec[1], dtype=float)
     return [float(v) for v in spec[1]]
 
 
@@ -863,6 +872,13 @@ def step_specs(rng, coords, swap, lattice=False):
         specs.append(("L", [float(v) for v in grid]))
     else:
         specs.append(("L", [float(np.nextafter(v, s)) for v in verts[:2] for s in (-np.inf, np.inf)] + []))
+    # whole-number abscissae handed over as integers (list / tuple / int64 array): the ordinates are still reals
+    whole = [float(v) for v in range(math.ceil(lo), math.floor(hi) + 1)]
+    if len(whole) > 12:
+        whole = [float(v) for v in sorted(rng.choice(whole, size=12, replace=False))]
+    if whole:
+        specs.append(("L", whole, str(rng.choice(["intlist", "intarr", "inttuple"]))))
+    specs.append(("L", inside, "arr"))
     return specs
 
 
@@ -920,7 +936,7 @@ def process_design(ck, cases):
             ncross = max([len(p["pts"]) for p in mQ["per"]] + [0])
         ck.case(case, nontrivial=(len(coords) >= 3 and ncross >= 1))
         ck.count("design:gen=" + case["gen"].split(":")[0])
-        ck.count("design:steps=" + spec[0])
+        ck.count("design:steps=" + spec[0] + (":" + spec[2] if len(spec) > 2 else ""))
         ck.count("design:swap=" + str(bool(swap)))
         ck.count("design:max_crossings=" + (str(ncross) if ncross < 5 else "5+"))
         if "res" in impl and "steps" in mF:
